@@ -3,6 +3,7 @@ package h
 import (
 	"errors"
 	"fmt"
+	"math"
 	"sort"
 	"time"
 
@@ -565,6 +566,11 @@ func genDT(c *Case, rng *vrt.Rand, tier string) func(r *Runner, i int) *Op {
 		case "set":
 			if rng.Chance(0.6) {
 				op.N = int(rng.Pick([]int{1, 1, 1})+1) * rng.Range(1, 5000) * 1000 // 1us .. 15ms
+			}
+			if rng.Chance(0.04) {
+				// very long lives: a century, and lives whose end lies beyond what int64 nanoseconds can express
+				// (the key then simply never expires)
+				op.N = []int{100 * 365 * 24 * 3600 * 1_000_000_000, 260 * 365 * 24 * 3600 * 1_000_000_000, math.MaxInt64, math.MaxInt64 - 1_700_000_000_000_000_000}[rng.Intn(4)]
 			}
 		case "zadd":
 			op.F = float64(rng.Range(0, 5)) + float64(rng.Intn(4))*0.25
